@@ -195,6 +195,95 @@ def c13_torch(run, Nmax=2, count=12, circuits=30):
             lambda: (lambda q: np.sort_complex(n(q.cs) * 1j ** n(q.ps)))(tP(a1.g, 1) + tP(a2.g, 2)), {'N': N})
         cmp('poly_scalar', lambda: (lambda q: [q.g, q.p, q.c])(2.5 * a1), lambda: (lambda q: [q.gs[0], q.ps[0], q.cs[0]])(2.5 * tP(a1.g, 1)), {'N': N})
         cmp('Pauli_plus_number', lambda: (lambda q: np.sort_complex(np.asarray(q.cs * 1j ** q.ps)))(a1 + 1), lambda: (lambda q: np.sort_complex(n(q.cs) * 1j ** n(q.ps)))(tP(a1.g, 1) + 1), {'N': N})
+        # operator algebra, representation-independent: the same expression is built in both packages and the DENSE matrices of the
+        # results are compared (term order and the split between phase and coefficient may differ legitimately)
+        def tdense(x):
+            if isinstance(x, tpa.PauliPolynomial):
+                gs_, ps_, cs_ = n(x.gs).astype(np.int64), n(x.ps).astype(np.int64), n(x.cs)
+                M_ = np.zeros((2 ** N, 2 ** N), dtype=complex)
+                for g_, p_, c_ in zip(gs_.reshape(-1, 2 * N), ps_.reshape(-1), cs_.reshape(-1)):
+                    M_ = M_ + complex(c_) * O.dense(g_, int(p_) % 4)
+                return M_
+            if hasattr(tpa, 'PauliMonomial') and isinstance(x, tpa.PauliMonomial):
+                return complex(n(x.c)) * O.dense(n(x.g).astype(np.int64), int(n(x.p)) % 4)
+            if isinstance(x, tpa.Pauli):
+                return O.dense(n(x.g).astype(np.int64), int(n(x.p)) % 4)
+            return complex(n(x)) * np.eye(2 ** N)
+        from .bounded import any_dense
+
+        def operands(seed_):
+            r_ = np.random.default_rng(seed_)
+            g_a, g_b, g_c = gens.bits(r_, 2 * N), gens.bits(r_, 2 * N), gens.bits(r_, 2 * N)
+            p_a, p_b, p_c = (int(x) for x in r_.integers(0, 4, 3))
+            c1, c2 = complex(np.round(r_.normal(), 2), np.round(r_.normal(), 2)), complex(np.round(r_.normal(), 2), 0.5)
+            py = {'pauli': P(g_a, p_a), 'mono': c1 * P(g_b, p_b), 'poly': c1 * P(g_a, p_a) + c2 * P(g_c, p_c) + P(g_b, p_b)}
+            to = {'pauli': tP(g_a, p_a), 'mono': c1 * tP(g_b, p_b), 'poly': c1 * tP(g_a, p_a) + c2 * tP(g_c, p_c) + tP(g_b, p_b)}
+            return py, to, c2
+        for seed_ in range(count):
+            ok, ops_ = guard(b, 'algebra_operands', lambda: operands(1000 * N + seed_), {'N': N})
+            if not ok:
+                continue
+            py_, to_, num_ = ops_
+            kinds = list(py_)
+            for ka in kinds:
+                for kb in kinds:
+                    for opn, f in (('add', lambda x, y: x + y), ('sub', lambda x, y: x - y), ('matmul', lambda x, y: x @ y)):
+                        cmp('algebra %s(%s, %s)' % (opn, ka, kb), lambda: any_dense(f(py_[ka], py_[kb]), N), lambda: tdense(f(to_[ka], to_[kb])), {'N': N, 'seed': seed_})
+                for opn, f in (('neg', lambda x: -x), ('rmul', lambda x: num_ * x), ('div', lambda x: x / num_), ('add_number', lambda x: x + num_),
+                               ('radd_number', lambda x: num_ + x), ('rmul_i', lambda x: 1j * x), ('rmul_m1', lambda x: -1 * x)):
+                    cmp('algebra %s(%s)' % (opn, ka), lambda: any_dense(f(py_[ka]), N), lambda: tdense(f(to_[ka])), {'N': N, 'seed': seed_})
+            cmp('algebra reduce', lambda: any_dense((py_['poly'] @ py_['poly']).reduce(), N), lambda: tdense((to_['poly'] @ to_['poly']).reduce()), {'N': N, 'seed': seed_})
+            for k_ in kinds:
+                o_ = py_[k_]
+                gs_t = np.atleast_2d(o_.gs if hasattr(o_, 'gs') else o_.g)
+                ps_t = np.atleast_1d(o_.ps if hasattr(o_, 'ps') else o_.p)
+                phased = any((not g_.any()) and int(p_) % 4 != 0 for g_, p_ in zip(gs_t, ps_t))
+                # pyclifford's trace() ignores the phase indicator of identity-string terms (known finding F12, pinned by its test suite);
+                # operands with such a term are compared under their own name so that any OTHER disagreement is still reported
+                cmp('algebra trace(%s)%s' % (k_, '[phased identity term]' if phased else ''), lambda: complex(py_[k_].trace()), lambda: complex(n(to_[k_].trace())), {'N': N, 'seed': seed_})
+            prod_py, prod_to = (lambda: py_['poly'] @ py_['poly']), (lambda: to_['poly'] @ to_['poly'])
+            cmp('algebra getitem(int)', lambda: sum(any_dense(prod_py()[j_], N) for j_ in range(prod_py().L)),
+                lambda: sum(tdense(prod_to()[j_]) for j_ in range(int(prod_to().L))), {'N': N, 'seed': seed_})
+            cmp('algebra getitem(slice)', lambda: any_dense(prod_py()[1:], N) + any_dense(prod_py()[:1], N),
+                lambda: tdense(prod_to()[1:]) + tdense(prod_to()[:1]), {'N': N, 'seed': seed_})
+            cmp('weight', lambda: [int(py_['pauli'].weight())], lambda: [int(n(to_['pauli'].weight()))], {'N': N, 'seed': seed_})
+            cmp('Pauli.tokenize', lambda: np.asarray(py_['pauli'].tokenize()), lambda: n(to_['pauli'].tokenize()), {'N': N, 'seed': seed_})
+        # small shared helpers and selections that the blocks above do not reach
+        for sub in itertools.chain.from_iterable(itertools.combinations(range(N), k_) for k_ in range(1, N + 1)):
+            cmp('mask', lambda: np.asarray(pu.mask(np.array(sub), N)).astype(int), lambda: n(tu.mask(torch.tensor(sub), N)).astype(int), {'qubits': list(sub), 'N': N})
+        cmp('identity_map', lambda: (lambda m: [m.gs, m.ps])(pst.identity_map(N)), lambda: (lambda m: [m.gs, m.ps])(tst.identity_map(N)), {'N': N})
+        cmp('aggregate', lambda: np.asarray(pu.aggregate(np.array([1.0, 2.0, 3.0, 4.0]), np.array([0, 1, 0, 2]), 3)),
+            lambda: n(tu.aggregate(torch.tensor([1.0, 2.0, 3.0, 4.0]), torch.tensor([0, 1, 0, 2]), 3)), {})
+        for ga_, gb_ in itertools.islice(((a_, b_) for a_ in S for b_ in S if pu.acq(a_, b_)), 12):
+            cmp('pauli_diagonalize2', lambda: (lambda r_: [np.array(r_[0]).reshape(-1, 2 * N), r_[1], r_[2]])(pu.pauli_diagonalize2(ga_.copy(), gb_.copy())),
+                lambda: (lambda r_: [n(torch.stack(list(r_[0]))).reshape(-1, 2 * N) if len(r_[0]) else np.zeros((0, 2 * N)), n(r_[1]), n(r_[2])])(tu.pauli_diagonalize2(T(ga_), T(gb_))),
+                {'g1': lst(ga_), 'g2': lst(gb_)})
+        L_all = len(S)
+        mk_sel = (np.arange(L_all) % 3 == 1)
+        ix_sel = np.array([L_all - 1, 0, L_all - 1])
+        cmp('PauliList.__getitem__(int)', lambda: (lambda q: [q.g, q.p])(PL(gsall.copy(), psall.copy())[L_all - 1]), lambda: (lambda q: [q.g, q.p])(tPL(gsall, psall)[L_all - 1]), {'N': N})
+        cmp('PauliList.__getitem__(slice)', lambda: (lambda q: [q.gs, q.ps])(PL(gsall.copy(), psall.copy())[1:3]), lambda: (lambda q: [q.gs, q.ps])(tPL(gsall, psall)[1:3]), {'N': N})
+        cmp('PauliList.__getitem__(mask)', lambda: (lambda q: [q.gs, q.ps])(PL(gsall.copy(), psall.copy())[mk_sel]), lambda: (lambda q: [q.gs, q.ps])(tPL(gsall, psall)[torch.tensor(mk_sel)]), {'N': N})
+        cmp('PauliList.__getitem__(index)', lambda: (lambda q: [q.gs, q.ps])(PL(gsall.copy(), psall.copy())[ix_sel]), lambda: (lambda q: [q.gs, q.ps])(tPL(gsall, psall)[torch.tensor(ix_sel)]), {'N': N})
+        cmp('PauliList.__neg__', lambda: (lambda q: [q.gs, q.ps % 4])(-PL(gsall.copy(), psall.copy())), lambda: (lambda q: [q.gs, q.ps % 4])(-tPL(gsall, psall)), {'N': N})
+        for c_u in (1, 1j, -1, -1j):
+            cmp('PauliList.__rmul__(%s)' % c_u, lambda: (lambda q: [q.gs, q.ps % 4])(c_u * PL(gsall.copy(), psall.copy())), lambda: (lambda q: [q.gs, q.ps % 4])(c_u * tPL(gsall, psall)), {'N': N})
+        cmp('PauliList.tokenize', lambda: np.asarray(PL(gsall.copy(), psall.copy()).tokenize()), lambda: n(tPL(gsall, psall).tokenize()), {'N': N})
+        cmp('PauliList.weight', lambda: np.asarray(PL(gsall.copy(), psall.copy()).weight()), lambda: n(tPL(gsall, psall).weight()), {'N': N})
+        for (gs_d, ps_d) in tableaux(N, rng, 2):
+            for r_d in range(N + 1):
+                cmp('StabilizerState.stabilizers', lambda: (lambda q: [q.gs, q.ps])(pst.StabilizerState(gs_d.copy(), ps=ps_d.copy()).set_r(r_d).stabilizers),
+                    lambda: (lambda q: [q.gs, q.ps])(tstate(gs_d, ps_d, r_d).stabilizers), {'r': r_d, 'N': N})
+        ga1, ga2 = pci.CliffordGate(0), pci.CliffordGate(*range(N))
+        gb1, gb2 = tci.CliffordGate(0), tci.CliffordGate(*range(N))
+        cmp('CliffordGate.independent_from', lambda: [bool(ga1.independent_from(ga2)), bool(ga1.independent_from(pci.CliffordGate(N - 1))) if N > 1 else True],
+            lambda: [bool(gb1.independent_from(gb2)), bool(gb1.independent_from(tci.CliffordGate(N - 1))) if N > 1 else True], {'N': N})
+        cmp('pauli_identity', lambda: any_dense(ppa.pauli_identity(N), N), lambda: tdense(tpa.pauli_identity(N)), {'N': N})
+        cmp('pauli_zero', lambda: any_dense(ppa.pauli_zero(N), N), lambda: tdense(tpa.pauli_zero(N)), {'N': N})
+        for (gs_d, ps_d) in tableaux(N, rng, 2):
+            for r_d in range(N + 1):
+                cmp('density_matrix', lambda: any_dense(pst.StabilizerState(gs_d.copy(), ps=ps_d.copy()).set_r(r_d).density_matrix, N),
+                    lambda: tdense(tstate(gs_d, ps_d, r_d).density_matrix), {'gs': lst(gs_d), 'ps': lst(ps_d), 'r': r_d})
         # gates and circuits
         gm, pm = all_maps(N, rng, 1)[0]
         def run_py():
